@@ -291,7 +291,7 @@ class Repo:
 
     def loc(self, node) -> str:
         f = getattr(node, "_file", "?")
-        return f"{f}:{getattr(node, 'lineno', 0)}"
+        return f"{f}:{getattr(node, '_orig_lineno', None) or getattr(node, 'lineno', 0)}"
 
     # -- definitions
     def cls(self, rel: str, name: str) -> ast.ClassDef:
